@@ -774,6 +774,49 @@ func (env *SpecEnv) evalCall(n *Node) Val {
 	case "ref":
 		x := env.eval(args[0])
 		return mathInt(ex.lower(x).L[0])
+	case "trimSpace", "toUpper", "toLower":
+		x := env.eval(args[0])
+		f := map[string]string{"trimSpace": "str_trimspace", "toUpper": "str_upper", "toLower": "str_lower"}[fn.Name]
+		ex.sc.fun(f, []string{sStr}, sStr)
+		return Val{T: types.Typ[types.String], L: []string{app(f, x.L[0])}}
+	case "strUval", "strIval":
+		x := env.eval(args[0])
+		b := env.eval(args[1])
+		f := map[string]string{"strUval": "str_uval", "strIval": "str_ival"}[fn.Name]
+		ex.sc.fun(f, []string{sStr, sInt}, sInt)
+		return mathInt(app(f, x.L[0], b.L[0]))
+	case "strIsNum":
+		x := env.eval(args[0])
+		b := env.eval(args[1])
+		sg := env.eval(args[2])
+		ex.sc.fun("str_isnum", []string{sStr, sInt, sBool}, sBool)
+		return mathBool(app("str_isnum", x.L[0], b.L[0], sg.L[0]))
+	case "strDec":
+		x := env.eval(args[0])
+		ex.sc.fun("str_dec", []string{sInt}, sStr)
+		r := app("str_dec", x.L[0])
+		if !strings.Contains(r, "qv_") && !strings.Contains(r, "ql_") {
+			saved := ex.sc.pure
+			ex.sc.pure = 0
+			ex.decFacts(r, x.L[0])
+			ex.sc.axiom(mkAnd(mkCmp(">=", slen(r), "1"), mkCmp("<=", slen(r), "20")))
+			ex.sc.pure = saved
+		}
+		return Val{T: types.Typ[types.String], L: []string{r}}
+	case "timeUnix":
+		a := env.eval(args[0])
+		b := env.eval(args[1])
+		ex.sc.fun("time_unix", []string{sInt, sInt}, sInt)
+		tt := ex.eng.prog.ImportedPackage("time").Pkg.Scope().Lookup("Time").Type()
+		return Val{T: tt, L: []string{app("time_unix", a.L[0], b.L[0])}}
+	case "timeString":
+		a := env.eval(args[0])
+		ex.sc.fun("time_string", []string{sInt}, sStr)
+		return Val{T: types.Typ[types.String], L: []string{app("time_string", a.L[0])}}
+	case "boxStr":
+		x := env.eval(args[0])
+		ex.sc.fun("box_str", []string{sStr}, sInt)
+		return mathInt(app("box_str", x.L[0]))
 	case "ospid":
 		ex.sc.global("os_pid", sInt)
 		return mathInt("os_pid")
@@ -898,7 +941,7 @@ func (env *SpecEnv) evalCall(n *Node) Val {
 		return c.eval(pd.Body)
 	}
 	// uninterpreted spec function declared on demand: uf_name(args...) : Int
-	if strings.HasPrefix(fn.Name, "uf_") || strings.HasPrefix(fn.Name, "ufb_") {
+	if strings.HasPrefix(fn.Name, "uf_") || strings.HasPrefix(fn.Name, "ufb_") || strings.HasPrefix(fn.Name, "ufs_") {
 		var as, sorts []string
 		for _, a := range args {
 			v := env.eval(a)
@@ -918,9 +961,18 @@ func (env *SpecEnv) evalCall(n *Node) Val {
 		if strings.HasPrefix(fn.Name, "ufb_") {
 			ret = sBool
 		}
+		if strings.HasPrefix(fn.Name, "ufs_") {
+			ret = sStr
+		}
 		ex.sc.fun(fn.Name, sorts, ret)
+		if len(as) == 0 {
+			sfail("uninterpreted spec function %s needs at least one argument", fn.Name)
+		}
 		if ret == sBool {
 			return mathBool(app(fn.Name, as...))
+		}
+		if ret == sStr {
+			return Val{T: types.Typ[types.String], L: []string{app(fn.Name, as...)}}
 		}
 		return mathInt(app(fn.Name, as...))
 	}
@@ -1197,6 +1249,14 @@ func (ex *Exec) modularCall(fr *Frame, st *State, reach string, callee *ssa.Func
 		g := env.evalBool(cl.E, fmt.Sprintf("%s requires #%d", ctr.Key, i+1))
 		ex.oblige(fr, "pre", cl.Tags, pos, "precondition of "+ctr.Key+": "+cl.Text, reach, g)
 	}
+	// recursion: the callee's variant must be smaller than the caller's
+	if ctr.Decreases != nil && ex.topFrame != nil && ex.topFrame.fn == callee {
+		calleeV := env.evalInt(ctr.Decreases, "decreases")
+		tenv := ex.newSpecEnv(callee, ex.topFrame.entry, nil)
+		ex.bindParams(tenv, callee, ctr, ex.topFrame.params)
+		callerV := tenv.evalInt(ctr.Decreases, "decreases")
+		ex.oblige(fr, "variant", nil, pos, "recursive call decreases "+nodeTextAny(ctr.Decreases), reach, mkAnd(mkCmp("<", calleeV, callerV), mkCmp(">=", calleeV, "0")))
+	}
 	// havoc the callee's frame
 	for _, m := range ctr.Modifies {
 		for _, mi := range ex.safeEvalModifies(env, m, ctr.Key) {
@@ -1278,8 +1338,27 @@ func (ex *Exec) modularCall(fr *Frame, st *State, reach string, callee *ssa.Func
 		}
 	}
 	ex.bindResults(post, callee, res)
+	// logical variables of the callee's contract are universally quantified in
+	// what the caller may assume
+	var binders []string
+	for _, vd := range ctr.ForallPars {
+		ex.qcounter++
+		nm := fmt.Sprintf("ql_%s_%d", sanitize(vd.Name), ex.qcounter)
+		t := post.resolveType(vd.Type)
+		srt := sInt
+		if t != nil {
+			srt = flatten(t)[0].Sort
+			post.vars[vd.Name] = Val{T: t, L: []string{nm}}
+		} else {
+			post.vars[vd.Name] = mathInt(nm)
+		}
+		binders = append(binders, "("+nm+" "+srt+")")
+	}
 	for i, cl := range ctr.Ensures {
 		g := post.evalBool(cl.E, fmt.Sprintf("%s ensures #%d", ctr.Key, i+1))
+		if len(binders) > 0 && strings.Contains(g, "ql_") {
+			g = "(forall (" + strings.Join(binders, " ") + ") " + g + ")"
+		}
 		ex.sc.assert(mkImp(reach, g))
 	}
 	return packResults(sig, res)
@@ -1395,10 +1474,7 @@ func (env *SpecEnv) evalRec(pd *PredDef, args []*Node) Val {
 		body := c.eval(pd.Body)
 		ex.sc.pure--
 		app0 := app(fname, actuals...)
-		saved := ex.sc.pure
-		ex.sc.pure = 0
-		ex.sc.assert("(forall (" + strings.Join(binders, " ") + ") (! (= " + app0 + " " + body.L[0] + ") :pattern (" + app0 + ")))")
-		ex.sc.pure = saved
+		ex.sc.axiom("(forall (" + strings.Join(binders, " ") + ") (! (= " + app0 + " " + body.L[0] + ") :pattern (" + app0 + ")))")
 	}
 	var actual []string
 	for i, a := range args {
@@ -1428,4 +1504,14 @@ func (env *SpecEnv) evalRec(pd *PredDef, args []*Node) Val {
 		return Val{T: retT, L: []string{t}}
 	}
 	return mathInt(t)
+}
+
+func nodeTextAny(n *Node) string {
+	if t := nodeText(n); t != "" {
+		return t
+	}
+	if n.Kind == "call" && len(n.Args) > 1 {
+		return nodeText(n.Args[0]) + "(" + nodeTextAny(n.Args[1]) + ")"
+	}
+	return "the variant"
 }
